@@ -76,8 +76,10 @@ def main(tier, seed):
             emit_rust.assign_abi_names(prog)
         if i % 4 == 1:
             tooltier.add_docs(prog, rng)
-        if b == "demo_gen" and i % 2 == 0:
-            tooltier.add_demo_attrs(prog, rng)
+        if b == "demo_gen" and i % 4 != 3:
+            # i % 4 == 1: explicit generation with no tagged method at all in the base program; the inserted unrelated type (sorted
+            # first) brings the only `generate` tag, which must not make anything else appear
+            tooltier.add_demo_attrs(prog, rng, generate=(i % 4 != 1))
         if i % 2 == 0 and tooltier.profiles.support(b)["namespacing"]:
             # types spread over several namespaces with cyclic references between them: headers then forward-declare / include across namespaces
             tooltier.reference_graph_features(prog, rng, keyword_fields=False, renames=False, namespaces=True)
@@ -87,6 +89,8 @@ def main(tier, seed):
             prog.modules[1].uses = ["crate::ffi::%s" % t.name for t in prog.modules[0].items]
             prog.modules[0].uses = ["crate::ffi2::%s" % t.name for t in prog.modules[1].items]
         cfg = tooltier.STD_CONFIG[b]
+        if b == "demo_gen" and i % 4 in (1, 2):
+            cfg = '[demo_gen]\nexplicit_generation = true\n'        # only #[diplomat::demo(generate)] methods are rendered
         d = toolrun.fresh_dir(toolrun.workdir("c14", "p%d_%s" % (i, b)))
 
         def gen(p, name):
@@ -133,12 +137,16 @@ def main(tier, seed):
         # the inserted types vary in kind, in where they sort (first / last by name and by module) and in the features their
         # methods use (callbacks, write, results where the backend has them): per-type state of the generator must not leak
         sup = tooltier.profiles.support(b)
-        zz = "Zz" if rng.random() < 0.7 else "Aa"
+        zz = "Zz" if (rng.random() < 0.7 and not (b == "demo_gen" and i % 4 == 1)) else "Aa"
         extra = spec.Opaque(zz + "UnrelatedOp")
         extra.methods.append(spec.Method("solo", None, [("x", ("prim", "u8"))], ("obox", extra.name, False)))
         if sup["callbacks"]:
             extra.methods.append(spec.Method("with_cb", ("ref", None), [("f", ("cb", [("prim", "i32")], ("prim", "i32"), False))], ("prim", "i32")))
         extra.methods.append(spec.Method("wr", ("ref", None), [("w", ("write",))], ("unit",)))
+        if b == "demo_gen":
+            # an explicitly tagged terminus on the inserted type: whether another type's methods are rendered must not depend on it
+            extra.methods[0].attrs.append("#[diplomat::demo(default_constructor)]")
+            extra.methods[-1].attrs.append("#[diplomat::demo(generate)]")
         p3.modules[rng.randrange(len(p3.modules))].items.insert(rng.randrange(3), extra)
         st = spec.Struct("AaUnrelatedSt", [("q", ("prim", "i16")), ("r", ("prim", "f32"))])
         p3.modules[0].items.insert(0, st)
@@ -176,7 +184,8 @@ def main(tier, seed):
         if kind == "ok":
             agg = AGGREGATE[b]
             n0 = out["files"]
-            compare("unrelated-type insertion", snap, only=lambda f: f in base and not agg(f) and "Unrelated" not in f, witness_src=s)
+            # files of other types must neither change nor appear / disappear (only the inserted types' own files may be new)
+            compare("unrelated-type insertion", snap, only=lambda f: not agg(f) and "Unrelated" not in f and "vfdup" not in f.lower(), witness_src=s)
             out["local"] += out["files"] - n0
         # (4) code outside bridge modules (incl. a same-named type in a non-bridge module) has no influence
         p4 = copy.deepcopy(prog)
